@@ -83,6 +83,7 @@ def replay(d):
             todo.extend(vars(o).values())
     ctx.rev_obj = rev
     notes = []
+    strict = bool(d.get("strict_requires"))
     # the input must satisfy the precondition natively, otherwise the model is not a legal input
     for name, text in (c.get("requires") or {}).items():
         try:
@@ -90,6 +91,9 @@ def replay(d):
                 return [], [f"precondition {name} does not hold on the reconstructed input"]
         except dsl.NotEvaluable as e:
             notes.append(f"requires {name} not evaluable natively ({e})")
+            if strict:
+                # a candidate found without the quantified hypotheses is only a witness if it is provably a legal input
+                return [], notes + ["candidate rejected: its legality cannot be established natively"]
         except Exception as e:
             return [], [f"precondition {name} raised {type(e).__name__} on the reconstructed input"]
     args = [params[p] for p in order]
